@@ -632,6 +632,15 @@ func checkProperty(cfg *RunCfg, prog *Program, id string, start time.Time) (int,
 	for _, s := range prog.CS.Sources {
 		assumptions[s] = true
 	}
+	// thorough tier: the assumed contracts of external functions (extlib.go, the axioms in the contract files) are
+	// exercised against the real libraries on generated inputs (bounded, never counted as proved)
+	var assumptionChecks map[string]interface{}
+	if cfg.Tier == "thorough" {
+		assumptionChecks = runConformance(verifDir)
+		if ok, _ := assumptionChecks["passed"].(bool); !ok {
+			engineErrors = append(engineErrors, "conformance test of an assumed external contract failed: "+fmt.Sprint(assumptionChecks["output"]))
+		}
+	}
 	tb := sortedStrings(trusted)
 	tb = append(tb, "the VC generator /verif/engine itself (weakest-precondition style symbolic execution over go/ast+go/types)", "SMT solvers z3 5.1.0 (z3-new), z3 4.8.12, cvc5 1.0.3", "go/packages + go/types for loading and typing /repo's working tree")
 	ev := map[string]interface{}{
@@ -655,6 +664,7 @@ func checkProperty(cfg *RunCfg, prog *Program, id string, start time.Time) (int,
 			"solver_time_s_by_backend": roundMap(backendTime),
 			"baseline_obligations_missing_now": missing,
 			"bounded_standins":         []string{},
+			"assumption_conformance_checks_bounded": assumptionChecks,
 			"samples":                  samples,
 			"engine_errors":            engineErrors,
 			"explanation":              "every obligation is generated from /repo's current working tree on this run; a function is verified against its own contract and callers see only callee contracts",
@@ -870,4 +880,30 @@ func runSafetySweep(cfg *RunCfg) int {
 		}
 	}
 	return 0
+}
+
+// runConformance runs /verif/conformance (go test) and summarises the outcome for the evidence file.
+func runConformance(verifDir string) map[string]interface{} {
+	dir := filepath.Join(verifDir, "conformance")
+	cmd := exec.Command("go", "test", "-count=1", "-v", "./...", "-rapid.checks=2000")
+	cmd.Dir = dir
+	cmd.Env = append(os.Environ(), "GOFLAGS=-mod=mod", "GOPROXY=off", "GOSUMDB=off", "GOTOOLCHAIN=local")
+	start := time.Now()
+	out, err := cmd.CombinedOutput()
+	text := string(out)
+	var tests []string
+	for _, l := range strings.Split(text, "\n") {
+		l = strings.TrimSpace(l)
+		if strings.HasPrefix(l, "--- PASS") || strings.HasPrefix(l, "--- FAIL") {
+			tests = append(tests, l)
+		}
+	}
+	return map[string]interface{}{
+		"cmd":     "cd /verif/conformance && go test -count=1 -v ./... -rapid.checks=2000",
+		"passed":  err == nil && !strings.Contains(text, "--- FAIL") && len(tests) > 0,
+		"tests":   tests,
+		"seconds": round3(time.Since(start).Seconds()),
+		"bound":   "property-based (pgregory.net/rapid, 2000 generated cases per test) plus fixed samples; BOUNDED: reduces the risk in the assumptions, proves nothing",
+		"output":  firstLines(text, 12),
+	}
 }
